@@ -339,11 +339,19 @@ func wantsToBeReceived(r *pool.Message) bool {
 }
 
 func (b *BlockWise[C]) getSendingMessageCode(token uint64) (codes.Code, bool) {
-	v := b.sendingMessagesCache.Load(token)
-	if v == nil {
-		return codes.Empty, false
-	}
-	return v.Data().Code(), true
+	code := codes.Empty
+	found := false
+	now := time.Now()
+	// The cached message of an outgoing request belongs to the caller of Do, who may release it as soon as Do has
+	// returned; Do removes the entry before it returns, so the message is read only under the lock of the cache.
+	b.sendingMessagesCache.LoadWithFunc(token, func(v *cache.Element[*pool.Message]) *cache.Element[*pool.Message] {
+		if !v.IsExpired(now) {
+			code = v.Data().Code()
+			found = true
+		}
+		return v
+	})
+	return code, found
 }
 
 // Handle middleware which constructs COAP request from blockwise transfer and send COAP response via blockwise.
